@@ -543,46 +543,221 @@ theorem absInt_panic_witness : absInt (-9223372036854775808) = .panic := by deci
 theorem absInt_partial (a : Int) (h : inI64 a) (hmin : a ≠ I64_MIN) : absInt a ≠ .panic := by
   unfold absInt; rw [ckI64_ok (by split <;> arith)]; simp
 
-/-- `1.step_to 5, 0`; `0.step_to i64::MIN`; `i64::MIN.step_to 1` (finding F-C06-8) -/
-theorem stepToNew_panic_witness :
-    stepToNew 1 5 0 = .panic ∧ stepToNew 0 (-9223372036854775808) 1 = .panic ∧
-    stepToNew (-9223372036854775808) 1 1 = .panic ∧ stepToNew 0 (-1) (-9223372036854775808) = .panic := by decide
+/-! ### StepToI64Iterator (number.step_to on integers; finding F-C06-8, fixed by d8d5b00) -/
 
-/-- moderate operands and a positive step are safe -/
-theorem stepToNew_partial (start target step : Int)
-    (hs : -4611686018427387904 ≤ start ∧ start ≤ 4611686018427387903)
-    (ht : -4611686018427387904 ≤ target ∧ target ≤ 4611686018427387903)
-    (hp : 1 ≤ step ∧ step ≤ I64_MAX) : stepToNew start target step ≠ .panic := by
+/-- before d8d5b00: `1.step_to 5, 0`; `0.step_to i64::MIN`; `i64::MIN.step_to 1` -/
+theorem stepToNewUnchecked_panic_witness :
+    stepToNewUnchecked 1 5 0 = .panic ∧ stepToNewUnchecked 0 (-9223372036854775808) 1 = .panic ∧
+    stepToNewUnchecked (-9223372036854775808) 1 1 = .panic := by decide
+
+/-- **`new` never panics**, for every `i64` start, target and step (zero, negative, `i64::MIN` …),
+and establishes the invariant with all `count + 1` values remaining -/
+theorem stepToNew_total (start target step : Int) (hs : inI64 start) (ht : inI64 target) (hst : inI64 step) :
+    ∃ s, stepToNew start target step = .ok s ∧ StepInv start target step s ∧
+      s.steps = stepCount start target step := by
+  obtain ⟨ha0, ha1, _, _⟩ := iabs_facts start target hs ht
   unfold stepToNew
-  rw [ckI64_ok (by arith)]; simp only [bind_ok]
-  rw [ckI64_ok (by split <;> arith)]; simp only [bind_ok]
-  have hne : step ≠ 0 := by omega
-  simp only [hne, ite_false]
-  -- |d| / step is between 0 and |d|
-  have habs : 0 ≤ (if target - start < 0 then -(target - start) else target - start) := by split <;> omega
-  have hle : (if target - start < 0 then -(target - start) else target - start) ≤ 9223372036854775807 := by
-    split <;> omega
-  generalize hq : (if target - start < 0 then -(target - start) else target - start) = ad at *
-  have hdiv0 : 0 ≤ Int.tdiv ad step := Int.tdiv_nonneg habs (by omega)
-  have hdivle : Int.tdiv ad step ≤ ad := by
-    rw [Int.tdiv_eq_ediv_of_nonneg habs]
-    exact Int.ediv_le_self _ habs
-  have hmul : step * Int.tdiv ad step ≤ ad := by
-    rw [Int.tdiv_eq_ediv_of_nonneg habs]
-    exact Int.mul_ediv_self_le (by omega)
-  have hmul0 : 0 ≤ step * Int.tdiv ad step := Int.mul_nonneg (by omega) hdiv0
-  rw [ckI64_ok (by arith)]; simp only [bind_ok]
-  by_cases hlt : target < start
-  · simp only [hlt, ite_true]
-    rw [ckI64_ok (by arith)]; simp only [bind_ok]
-    have hm : -step * Int.tdiv ad step = -(step * Int.tdiv ad step) := Int.neg_mul _ _
-    have had : ad = start - target := by rw [← hq]; split <;> omega
-    rw [ckI64_ok (by arith)]; simp only [bind_ok]
-    rw [ckI64_ok (by arith)]; simp
-  · simp only [hlt, ite_false, bind_ok]
-    have had : ad = target - start := by rw [← hq]; split <;> omega
-    rw [ckI64_ok (by arith)]; simp only [bind_ok]
-    rw [ckI64_ok (by arith)]; simp
+  by_cases hp : 0 < step
+  · obtain ⟨hceq, hc⟩ := stepCount_facts start target step hp
+    obtain ⟨hn0, hnle, _⟩ := hc ha0
+    have hv := step_value start target step (stepCount start target step) hs ht hst hp hn0 (Int.le_refl _)
+    simp only [gt_iff_lt, hp, ite_true]
+    rw [ckI128_ok (by arith)]; simp only [bind_ok]
+    rw [ckI128_ok (by omega)]; simp only [bind_ok]
+    rw [← hceq]
+    rw [ckI128_ok (by omega)]; simp only [bind_ok]
+    have hmax : max (stepCount start target step) 0 = stepCount start target step := by omega
+    rw [hmax]
+    have hsg : (if target < start then wrap64 (-step) else step) = stepSigned start target step := rfl
+    rw [hsg]
+    obtain ⟨hbt, hlo, hhi⟩ := hv
+    rw [ckI128_ok (by omega)]; simp only [bind_ok]
+    rw [ckI128_ok (by arith)]; simp only [bind_ok]
+    have hin : inI64 (start + stepSigned start target step * stepCount start target step) := by
+      unfold between at hbt; arith
+    refine ⟨_, rfl, ⟨rfl, by simp only; omega, by simp only; omega, ?_⟩, rfl⟩
+    intro _
+    exact ⟨0, by omega, by simp only; omega, by simp only [wrap64_id hin]; congr 2; omega⟩
+  · have hc := stepCount_nonpos start target step hp
+    simp only [gt_iff_lt, hp, ite_false, bind_ok]
+    have hmax : max (-1 : Int) 0 = 0 := by omega
+    rw [hmax, Int.mul_zero]
+    rw [ckI128_ok (by omega)]; simp only [bind_ok]
+    rw [ckI128_ok (by arith)]; simp only [bind_ok]
+    refine ⟨_, rfl, ⟨rfl, by simp only; omega, by simp only; omega, ?_⟩, by simp only; omega⟩
+    intro h; simp only at h; omega
+
+/-- **`next` never panics**, keeps the invariant, yields a value between `start` and `target`
+exactly while `steps ≥ 0`, and consumes one step -/
+theorem stepToNext_spec (start target step : Int) (hs : inI64 start) (ht : inI64 target) (hst : inI64 step)
+    (s : StepTo) (h : StepInv start target step s) :
+    ∃ v s', stepToNext s = .ok (v, s') ∧ StepInv start target step s' ∧
+      (0 ≤ s.steps → (∃ x, v = some x ∧ between start target x) ∧ s'.steps = s.steps - 1) ∧
+      (s.steps < 0 → v = none ∧ s' = s) := by
+  obtain ⟨hstep, hm1, hle, hex⟩ := h
+  unfold stepToNext
+  by_cases h0 : 0 ≤ s.steps
+  · have hp : 0 < step := by
+      apply Classical.byContradiction; intro hp
+      have := stepCount_nonpos start target step hp; omega
+    obtain ⟨lo, hlo0, hlole, htgt⟩ := hex h0
+    obtain ⟨ha0, ha1, _, _⟩ := iabs_facts start target hs ht
+    obtain ⟨_, hc⟩ := stepCount_facts start target step hp
+    obtain ⟨hn0, hnle, _⟩ := hc ha0
+    have hv1 := step_value start target step s.steps hs ht hst hp h0 hle
+    have hv2 := step_value start target step lo hs ht hst hp hlo0 (by omega)
+    have hv3 := step_value start target step (lo + s.steps) hs ht hst hp (by omega) hlole
+    have hsplit : stepSigned start target step * (lo + s.steps)
+        = stepSigned start target step * lo + stepSigned start target step * s.steps := Int.mul_add _ _ _
+    simp only [ge_iff_le, h0, ite_true]
+    rw [hstep]
+    rw [ckI128_ok (by omega)]; simp only [bind_ok]
+    have hval : s.target - stepSigned start target step * s.steps = start + stepSigned start target step * lo := by
+      rw [htgt, hsplit]; omega
+    rw [hval]
+    obtain ⟨hb2, _, _⟩ := hv2
+    have hin : inI64 (start + stepSigned start target step * lo) := by unfold between at hb2; arith
+    rw [ckI128_ok (by arith)]; simp only [bind_ok]
+    rw [ckI128_ok (by omega)]; simp only [bind_ok]
+    refine ⟨_, _, rfl, ⟨rfl, by simp only; omega, by simp only; omega, ?_⟩, ?_, ?_⟩
+    · intro h1
+      simp only at h1
+      exact ⟨lo + 1, by omega, by simp only; omega, by simp only; rw [htgt]; congr 2; omega⟩
+    · intro _
+      exact ⟨⟨_, rfl, by rw [wrap64_id hin]; exact hb2⟩, rfl⟩
+    · intro hneg; omega
+  · simp only [ge_iff_le, h0, ite_false]
+    refine ⟨none, s, rfl, ⟨hstep, hm1, hle, hex⟩, ?_, ?_⟩
+    · intro h1; first | exact False.elim h1 | exact absurd h1 h0
+    · intro _; exact ⟨rfl, rfl⟩
+
+/-- **`next_back` never panics** (the `wrapping_sub` past the first value happens only when nothing
+remains), keeps the invariant, yields a value between `start` and `target`, consumes one step -/
+theorem stepToNextBack_spec (start target step : Int) (hs : inI64 start) (ht : inI64 target) (hst : inI64 step)
+    (s : StepTo) (h : StepInv start target step s) :
+    ∃ v s', stepToNextBack s = .ok (v, s') ∧ StepInv start target step s' ∧
+      (0 ≤ s.steps → (∃ x, v = some x ∧ between start target x) ∧ s'.steps = s.steps - 1) ∧
+      (s.steps < 0 → v = none ∧ s' = s) := by
+  obtain ⟨hstep, hm1, hle, hex⟩ := h
+  unfold stepToNextBack
+  by_cases h0 : 0 ≤ s.steps
+  · have hp : 0 < step := by
+      apply Classical.byContradiction; intro hp
+      have := stepCount_nonpos start target step hp; omega
+    obtain ⟨lo, hlo0, hlole, htgt⟩ := hex h0
+    obtain ⟨ha0, ha1, _, _⟩ := iabs_facts start target hs ht
+    obtain ⟨_, hc⟩ := stepCount_facts start target step hp
+    obtain ⟨hn0, hnle, _⟩ := hc ha0
+    have hv3 := step_value start target step (lo + s.steps) hs ht hst hp (by omega) hlole
+    simp only [ge_iff_le, h0, ite_true]
+    rw [ckI128_ok (by omega)]; simp only [bind_ok]
+    refine ⟨_, _, rfl, ⟨hstep, by simp only; omega, by simp only; omega, ?_⟩, ?_, ?_⟩
+    · intro h1
+      simp only at h1
+      have hv4 := step_value start target step (lo + (s.steps - 1)) hs ht hst hp (by omega) (by omega)
+      obtain ⟨hb4, _, _⟩ := hv4
+      have hin : inI64 (start + stepSigned start target step * (lo + (s.steps - 1))) := by
+        unfold between at hb4; arith
+      refine ⟨lo, hlo0, by simp only; omega, ?_⟩
+      simp only
+      have hsub : s.target - s.step = start + stepSigned start target step * (lo + (s.steps - 1)) := by
+        rw [htgt, hstep]
+        have : stepSigned start target step * (lo + s.steps)
+            = stepSigned start target step * (lo + (s.steps - 1)) + stepSigned start target step := by
+          have h1 : lo + s.steps = (lo + (s.steps - 1)) + 1 := by omega
+          rw [h1, Int.mul_add, Int.mul_one]
+        omega
+      rw [hsub, wrap64_id hin]
+    · intro _
+      obtain ⟨hb3, _, _⟩ := hv3
+      exact ⟨⟨_, rfl, by rw [htgt]; exact hb3⟩, rfl⟩
+    · intro hneg; omega
+  · simp only [ge_iff_le, h0, ite_false]
+    refine ⟨none, s, rfl, ⟨hstep, hm1, hle, hex⟩, ?_, ?_⟩
+    · intro h1; first | exact False.elim h1 | exact absurd h1 h0
+    · intro _; exact ⟨rfl, rfl⟩
+
+/-- **`size_hint` never panics** and is `steps + 1` saturated at `usize::MAX` -/
+theorem stepToSizeHint_total (start target step : Int) (hs : inI64 start) (ht : inI64 target)
+    (s : StepTo) (h : StepInv start target step s) :
+    stepToSizeHint s = .ok (min (s.steps + 1) USIZE_MAX) := by
+  obtain ⟨_, hm1, hle, _⟩ := h
+  obtain ⟨ha0, ha1, _, _⟩ := iabs_facts start target hs ht
+  have hn : stepCount start target step ≤ 18446744073709551615 := by
+    by_cases hp : 0 < step
+    · obtain ⟨_, hc⟩ := stepCount_facts start target step hp
+      have := (hc ha0).2.1; omega
+    · rw [stepCount_nonpos start target step hp]; omega
+  unfold stepToSizeHint
+  rw [ckI128_ok (by omega)]; simp only [bind_ok]
+  congr 1
+  split <;> arith
+
+/-- **any sequence of pulls** from either end: no panic, exactly `min (#pulls) (steps + 1)` values
+come out (so a fresh iterator yields `count + 1` values in total), all between `start` and `target` -/
+theorem stepToRun_spec (start target step : Int) (hs : inI64 start) (ht : inI64 target) (hst : inI64 step)
+    (ops : List Bool) (s : StepTo) (h : StepInv start target step s) :
+    ∃ vs, stepToRun s ops = .ok vs ∧ (vs.length : Int) = min (ops.length : Int) (s.steps + 1) ∧
+      ∀ x ∈ vs, between start target x := by
+  induction ops generalizing s with
+  | nil => exact ⟨[], rfl, by have := h.2.1; simp; omega, by simp⟩
+  | cons b ops ih =>
+    have hm1 := h.2.1
+    obtain ⟨v, s', hok, hinv', hyield, hnone⟩ :
+        ∃ v s', (if b then stepToNextBack s else stepToNext s) = .ok (v, s') ∧ StepInv start target step s' ∧
+          (0 ≤ s.steps → (∃ x, v = some x ∧ between start target x) ∧ s'.steps = s.steps - 1) ∧
+          (s.steps < 0 → v = none ∧ s' = s) := by
+      cases b
+      · simpa using stepToNext_spec start target step hs ht hst s h
+      · simpa using stepToNextBack_spec start target step hs ht hst s h
+    obtain ⟨vs, hvs, hlen, hall⟩ := ih s' hinv'
+    unfold stepToRun
+    rw [hok]; simp only [bind_ok]
+    rw [hvs]; simp only [bind_ok]
+    by_cases h0 : 0 ≤ s.steps
+    · obtain ⟨⟨x, hx, hbx⟩, hst'⟩ := hyield h0
+      subst hx
+      refine ⟨x :: vs, rfl, ?_, ?_⟩
+      · simp only [List.length_cons]; push_cast; omega
+      · intro y hy; rcases List.mem_cons.mp hy with hy | hy
+        · subst hy; exact hbx
+        · exact hall y hy
+    · obtain ⟨hv, hs'⟩ := hnone (by omega)
+      subst hv; subst hs'
+      refine ⟨vs, rfl, ?_, hall⟩
+      simp only [List.length_cons]; push_cast; omega
+
+/-- corollary: a fresh iterator pulled at least `count + 1` times yields exactly `count + 1` values -/
+theorem stepTo_count (start target step : Int) (hs : inI64 start) (ht : inI64 target) (hst : inI64 step)
+    (ops : List Bool) (hlen : stepCount start target step + 1 ≤ ops.length) :
+    ∃ s vs, stepToNew start target step = .ok s ∧ stepToRun s ops = .ok vs ∧
+      (vs.length : Int) = stepCount start target step + 1 ∧ ∀ x ∈ vs, between start target x := by
+  obtain ⟨s, hnew, hinv, hsteps⟩ := stepToNew_total start target step hs ht hst
+  obtain ⟨vs, hrun, hl, hall⟩ := stepToRun_spec start target step hs ht hst ops s hinv
+  exact ⟨s, vs, hnew, hrun, by rw [hl, hsteps]; omega, hall⟩
+
+example : (stepToNew 1 9 2).bind (fun s => stepToRun s [false, true, false, false, false, false]) = .ok [1, 9, 3, 5, 7] := by
+  decide
+example : (stepToNew (-9223372036854775808) 9223372036854775807 1).bind stepToSizeHint = .ok 18446744073709551615 := by
+  decide
+example : (stepToNew 1 5 0).bind (fun s => stepToRun s [false, true]) = .ok [] := by decide
+
+/-! ### list.retain with a predicate (finding F-C06-18, fixed by cf950fc) -/
+
+/-- before cf950fc: `l = [1, 2, 3, 4]; l.retain |x| (l.pop(); true)` reads past the new end -/
+theorem listRetain_unchecked_panic_witness : listRetain false 4 [(true, 3), (true, 2), (true, 1)] = .panic := by
+  decide
+
+/-- **current code**: whatever the predicate answers and however it resizes the list between calls,
+the loop and the final `truncate` cannot panic, and the result is never longer than the list -/
+theorem listRetain_total (len0 : Int) (ms : List RetainMove) : listRetain true len0 ms ≠ .panic := by
+  unfold listRetain
+  cases h : retainLoop true len0 0 0 len0 ms with
+  | panic => exact absurd h (retainLoop_checked_total len0 ms 0 0 len0)
+  | err => simp
+  | ok p => simp
+
+example : listRetain true 4 [(true, 3), (true, 2), (true, 1)] = .ok 2 := by decide
 
 /-- `(0..10).expanded 9223372036854775807` (finding F-C06-10) -/
 theorem rangeExpanded_panic_witness : rangeExpanded 0 10 9223372036854775807 = .panic := by decide
